@@ -85,7 +85,7 @@ def jobs(tier, seed, excluded=()):
     if tier == "quick":
         dom = Dom(int_max=120, int_cands=["-3", "007"], str_mode="cand", str_cands=STRS, hex_cands=["0x1f", "1f", "0X1F"], float_cands=["5", "1e3", "0.25"])
         trees = ["T01", "T02", "T05", "T06", "T07", "T08", "T09", "T12", "E_select", "E_imply", "E_set_src", "E_setdef_src", "E_choice_default", "E_menu_vis", "E_default_order", "E_default_cond", "E_default_bool"]
-        out = state_jobs("C10", "vk.props.c10", "mincfg", trees, dom, 60, 2, 100, rng)
+        out = state_jobs("C10", "vk.props.c10", "mincfg", trees + ["E_setdef_val", "E_set_val"], dom, 60, 2, 100, rng)
         # small trees explored completely (ints from two candidates)
         cdom = Dom(int_max=-1, int_cands=["7", "10"], str_mode="cand", str_cands=["p"], hex_cands=["0x1f"], float_cands=["0.25"])
         out += state_jobs("C10", "vk.props.c10", "mincfg", ["E_choice_nested", "E_choice_default", "E_choice_member_dep"], cdom, 800, 1, 200, rng, tag="all")
